@@ -1,7 +1,14 @@
-(** Pre-fix transcription of files.UnzipToFolder (before commit e1a7162 in
-    /repo): identical to [Zip.unzip_entry] except that the destination of an
-    entry is not checked to lie inside the destination directory.  Used only by
-    the refutation lemma [legacy_unzip_escapes] (defect D5, zip slip).
+(** Pre-fix transcriptions.
+
+    1. files.UnzipToFolder before commit e1a7162 in /repo: identical to
+       [Zip.unzip_entry] except that the destination of an entry is not checked
+       to lie inside the destination directory.  Used only by the refutation
+       lemma [legacy_unzip_escapes] (defect D5, zip slip).
+    2. files.ZipFolder before commit de6fafe in /repo: the entry name is the
+       byte slice [path[len(srcDir):]] and sub-folders are recognised by
+       comparing the directory string of the path with the srcDir string,
+       although filepath.Walk reports cleaned paths.  Used only by
+       [legacy_zip_unclean_src_mangles_names] (defect D12).
 
     No proofs in this file. *)
 From Coq Require Import List NArith Bool Arith.
@@ -46,3 +53,35 @@ Definition legacy_unzip (dest : rpath) (ar : list entry) (fs : fsys) : fsys * ur
       let r := legacy_unzip_loop dest (fs1, []) ar in
       (fst (fst r), snd r)
   end.
+
+(** * ZipFolder before de6fafe *)
+
+(* '/'-split of a byte string *)
+Fixpoint bsplit (l : list N) : rpath :=
+  match l with
+  | [] => [[]]
+  | b :: l' =>
+      if N.eqb b slash then [] :: bsplit l'
+      else match bsplit l' with
+           | s :: r => (b :: s) :: r
+           | [] => [[b]]
+           end
+  end.
+
+(* body of the walk callback for one regular file; [src] is srcDir after ensureDirName *)
+Definition legacy_zip_select (src : rpath) (filt : option (rpath -> bool)) (recursive : bool)
+           (f : list seg * N) : zsel :=
+  let path := walk_path src (fst f) in
+  if match filt with Some t => negb (t path) | None => false end then SelSkip
+  else if negb recursive && negb (path_eqb (ensure_dir_name (split_dir path)) src) then SelSkip
+  else
+    let pb := render path in
+    let n := length (render src) in
+    if length pb <? n then SelPanic                            (* path[len(srcDir):] out of range *)
+    else SelEntry (mkE (bsplit (skipn n pb)) false (snd f)).
+
+Definition legacy_zip_folder (src : rpath) (filt : option (rpath -> bool)) (recursive : bool)
+           (t : tree) : zres :=
+  let src' := ensure_dir_name src in
+  if is_empty_str src' then ZErr
+  else zip_collect (map (legacy_zip_select src' filt recursive) (walk_sort t)).
